@@ -248,7 +248,7 @@ impl DateFilter for ds::YearRange {
             } else {
                 // 5. time is in the range but doesn't match the step
                 let round_up = |x: u16, d: u16| d * x.div_ceil(d); // get the first multiple of `d` greater than `x`.
-                range.start() + round_up(curr_year - range.start(), self.step)
+                (range.start()).saturating_add(round_up(curr_year - range.start(), self.step))
             }
         };
 
